@@ -201,7 +201,11 @@ def _value_locals(fn_node, cur: str) -> set[str]:
     for a in own_nodes(fn_node):
         if isinstance(a, ast.Assign) and len(a.targets) == 1 and isinstance(a.targets[0], ast.Name):
             binds.setdefault(a.targets[0].id, []).append(norm(a.value))
-    return {k for k, v in binds.items() if v == [f"{cur}.value"]}
+    out = {k for k, v in binds.items() if v == [f"{cur}.value"]}
+    for _ in range(3):
+        # … or to such a local (`item = value`, the form an expanded generator helper leaves behind)
+        out |= {k for k, v in binds.items() if len(v) == 1 and v[0] in out}
+    return out
 
 
 def rule_r2(ctx):
